@@ -51,7 +51,12 @@ class BlackJAXSMC(SMCSampler):
         x_params, log_abs_det_jacobian = (
             self.preconditioning_transform.inverse(x_original)
         )
-        samples = SMCSamples(x_params, xp=self.xp, dtype=self.dtype)
+        samples = SMCSamples(
+            x_params,
+            xp=self.xp,
+            dtype=self.dtype,
+            parameters=self.parameters,
+        )
 
         # Compute log probabilities
         log_q = self.prior_flow.log_prob(samples.x)
